@@ -193,10 +193,15 @@ class Problem : public squids::SQuIDS {
   Problem& operator=(Problem&&) = default;
   void reinit(const Params& p) { P = p; ini(p.nx, p.d, p.nr, p.ns, p.ti); }
 
-  void set_mask(int m) {
+  // a switch setting can be reached through any order of setter calls; `order` (any number) picks one of the 120
+  void set_mask(int m, unsigned order = 0) {
     mask = m;
-    Set_CoherentRhoTerms(m & COH); Set_NonCoherentRhoTerms(m & NONCOH); Set_OtherRhoTerms(m & OTHER);
-    Set_GammaScalarTerms(m & GSCAL); Set_OtherScalarTerms(m & OSCAL);
+    int idx[5] = {0, 1, 2, 3, 4};
+    for (int i = 4; i > 0; i--) { int j = (int)(order % (unsigned)(i + 1)); order /= (unsigned)(i + 1); std::swap(idx[i], idx[j]); }
+    for (int k = 0; k < 5; k++) switch (idx[k]) {
+      case 0: Set_CoherentRhoTerms(m & COH); break; case 1: Set_NonCoherentRhoTerms(m & NONCOH); break; case 2: Set_OtherRhoTerms(m & OTHER); break;
+      case 3: Set_GammaScalarTerms(m & GSCAL); break; default: Set_OtherScalarTerms(m & OSCAL);
+    }
   }
   void toggle(int bit, bool on) {
     if (on) mask |= bit; else mask &= ~bit;
